@@ -411,7 +411,7 @@ func drainAccept2(s *transport.Server) []*transport.Handle {
 }
 
 func genC01(r *vh.Runner) {
-	seeds := r.Pick(2, 1000)
+	seeds := r.Pick(2, 4000)
 	for seed := 0; seed < seeds; seed++ {
 		for _, hidden := range []bool{false, true} {
 			for _, dir := range []string{"cvs", "svc"} {
